@@ -443,6 +443,18 @@ def _nonzero_size_fact(m, f, tt, nid):
     return False
 
 
+def _is_last_vertex_list(f, tt, lt):
+    """list term is getOutNeighbours(x) with x the end vertex (variable initialised from getEndVertex)"""
+    if lt[0] == 'mcall' and lt[1].endswith(('::getOutNeighbours', '::getNeighbours')) and lt[3]:
+        x = lt[3][0]
+        if x[0] == 'var':
+            init = [tt.t(d[1]) for d in var_defs(f, x[1]) if d[1] >= 0]
+            return any(t[0] in ('call', 'mcall') and t[1].endswith('::getEndVertex') for t in init)
+        if x[0] == 'field' and x[1].endswith('::endVertex'):
+            return True
+    return False
+
+
 def rule_idx(m):
     res = RuleResult('F-IDX', 'edge enumeration never calls a range-asserting accessor with an internal index that is not in '
                               'range: literal 0 / getEndVertex / size-1 only under a dominating `size != 0`; the cursor is '
@@ -531,6 +543,49 @@ def rule_idx(m):
                             res.fail(Finding('F-IDX', disp, 'size - 1 without size check', f.nloc(n['i']),
                                              '`%s` is evaluated on a path where the size may be 0 (wraps to the maximum index)'
                                              % f.expr_text(n['i'])))
+        # ---- begin() may return end() only when it knows there is no edge to yield
+        for f in m.by_tname.get(cls + '::Edges::begin', []):
+            tt = Terms(f)
+            from .rules_wl import implied
+            for n in f.nodes:
+                if n['k'] != 'ReturnStmt':
+                    continue
+                rt = tt.t(f.children(n['i'])[0]) if f.children(n['i']) else ('none',)
+                core = rt
+                while core[0] in ('ctor', 'cast') and core[2]:
+                    nxt = core[2][0] if core[0] == 'ctor' else core[2]
+                    if core[0] == 'ctor' and len(core[2]) != 1:
+                        break
+                    core = nxt
+                if not (core[0] == 'mcall' and core[1].endswith('::Edges::end') and core[2] == ('this',)):
+                    continue
+                res.sites += 1
+                pos = f.cfg_pos(n['i'])
+                known_empty = False
+                for (bb, ix) in f.dominating_edges(pos[0]) if pos else []:
+                    a = f.branch_atom(bb)
+                    for (at, pol) in implied(tt.t(a), ix == 0) if a is not None else []:
+                        while at[0] in ('conv', 'cast'):
+                            at = at[2]
+                        # no vertex / no edge at all
+                        if at[0] == 'bin' and at[1] == '==' and pol and strip_cast(at[3]) == ('int', 0):
+                            l = strip_cast(at[2])
+                            if is_size_term(m, f, l, tt) or (l[0] == 'mcall' and l[1].endswith('::getEdgeNumber')):
+                                known_empty = True
+                        # the list of the last vertex has been inspected and is empty / exhausted
+                        if at[0] == 'mcall' and at[1] == 'std::list::empty' and pol:
+                            known_empty = known_empty or _is_last_vertex_list(f, tt, at[2])
+                        if at[0] == 'bin' and at[1] == '==' and pol and at[3][0] == 'mcall' and at[3][1] == 'std::list::end':
+                            known_empty = known_empty or _is_last_vertex_list(f, tt, at[3][2])
+                if known_empty:
+                    res.ok(dict(function=f.display(), returns='end()', because='size == 0 / edge count == 0 / list of the last '
+                                'vertex exhausted') if len(res.samples) < 24 else None, fn=f.display())
+                else:
+                    res.fail(Finding('F-IDX', f.display(), 'begin() returns end() without inspecting the last list', f.nloc(n['i']),
+                                     'begin() returns end() on a path on which neither `size == 0`, `getEdgeNumber() == 0` nor '
+                                     'emptiness of the neighbour list of the last vertex is known: a graph whose only edges '
+                                     'start at the last vertex (e.g. a self-loop on it) enumerates as empty although it has '
+                                     'edges'))
         # ---- endVertex field initialised from getEndVertex(graph)
         for f in m.by_tname.get(cls + '::Edges::constEdgeIterator::constEdgeIterator', []):
             res.sites += 1
